@@ -2,7 +2,7 @@
 EXTENDS GlobalsContract, IOUtils
 VARIABLES tid, l, bad
 Traces == ndJsonDeserialize(IOEnv.TRACE_FILE)
-StepClause(pre, ev) == LET c == StepFailing(pre, ev.a, ev.post) IN IF c # "ok" THEN c ELSE ProbeFailing(ev)
+StepClause(pre, ev) == LET c == StepFailing(pre, ev.a, ev.post) IN IF c # "ok" THEN c ELSE IF ev.crashed THEN "OperationWorksWhateverWentBefore" ELSE IF OutFailing(ev.a, ev.out) # "ok" THEN OutFailing(ev.a, ev.out) ELSE ProbeFailing(ev)
 StateClause(o) == "ok"
 INSTANCE Monitor
 =============================================================================
